@@ -453,7 +453,7 @@ class Extractor:
             fenv.pop(name, None)                          # no longer a plain temporary
             self.promoted = getattr(self, 'promoted', set()) | {name}
             return
-        if op == '-=' and name in self.acc and getattr(self, 'locals_ok', False):
+        if op == '-=' and name in self.acc:
             self.acc[name].append((-self.rat(rhs, ienv, fenv), list(loops), node))
             fenv.pop(name, None)
             self.promoted = getattr(self, 'promoted', set()) | {name}
